@@ -565,8 +565,41 @@ MUST = ({"n_keys": 0}, {"n_keys": 136}, {"n_keys": 137}, {"n_keys": 138}, {"n_ke
         {"n_keys": 5, "kind": "C"})
 
 
+def impl_constants():
+    import bermuda.io.binary as b
+    tags = b"".join([b.STRING, b.INT, b.FLOAT, b.BOOL, b.NONE, b.DATE, b.INT_ARRAY, b.FLOAT_ARRAY, b.DICT_END,
+                     b.METADATA, b.CELL, b.CUMULATIVE_CELL, b.INCREMENTAL_CELL])
+    return {"magic": b.MAGIC.hex(), "version": b.VERSION.hex(), "tags": tags.hex()}
+
+
+def ensure_tables(ctx, driver, module):
+    """Dynamic cross-check of the regenerated constants table (DESIGN §5): the compiled model must carry
+    the constants of the implementation under test. They can differ when another check regenerated
+    lean/Bermuda/Generated/*.lean from a different tree between our translator run and our build (checks
+    run concurrently; VERIF_REPO differs under mutation testing): regenerate and rebuild, and report a
+    property module that no longer builds against the right table."""
+    want = impl_constants()
+    for _ in range(3):
+        have = common.Driver(driver).run([{"op": "constants"}])[0]
+        if have == want:
+            return True
+        import translate
+        translate.regenerate(["Binary"])
+        ok, log, _ = common.lake_build([driver])
+        if not ok:
+            raise common.Infra("driver build failed after regenerating the constants table:\n" + log[-2000:])
+        ok, log, _ = common.lake_build([module])
+        if not ok:
+            import re
+            ctx.disagree(f"{module} builds against the constants regenerated from the tree under test", {"constants": want},
+                         model=re.findall(r"error: ([^\n]*)", log)[:6], impl=want)
+            return False
+    raise common.Infra("generated constants table keeps changing under this run (concurrent checks on another tree?)")
+
+
 def correspondence(ctx):
     drv = common.Driver("drv_c05")
+    ensure_tables(ctx, "drv_c05", "Bermuda.Properties.C05")
     n = 900 if ctx.thorough else 110
     with Scratch() as scratch:
         tris = [(Triangle([]), {"kind": "empty", "slices": 0, "cells": 0, "keys": 0})]
